@@ -98,28 +98,29 @@ def Linearizable (s0 : σ) (h : List (Ev Req Resp)) : Prop :=
 
 /-! ## executable checker -/
 
-/-- WGL-style search: either consume the next history event, or let one pending operation take
-    effect now.  `exp` = the observed response of every completed operation (prunes branches that
-    would produce another response; soundness does not depend on it). -/
+/-- WGL-style search with just-in-time linearization: consume the next history event whenever it
+    can be consumed; when it cannot (a response of an operation that has not taken effect yet), let
+    one pending operation take effect now and try again.  `exp` = the observed response of every
+    completed operation (prunes branches that would produce another response).  Soundness
+    (`search_sound`) does not depend on either pruning. -/
 def search (exp : NMap Resp) : Nat → RState σ Req Resp → List (Ev Req Resp) → Bool
   | 0, _, _ => false
   | fuel + 1, r, h =>
-    (match h with
-     | [] => true
-     | e :: es =>
-       match stepEv step r e with
-       | some r' => search exp fuel r' es
-       | none => false)
-    ||
-    r.pend.any (fun p =>
-      let resp := (step r.s p.2).2
-      (match NMap.get exp p.1 with
-       | some o => decide (o = resp)
-       | none => true)
-      &&
-      match stepEv step r (.lin p.1 resp) with
-      | some r' => search exp fuel r' h
-      | none => false)
+    match h with
+    | [] => true
+    | e :: es =>
+      match stepEv step r e with
+      | some r' => search exp fuel r' es
+      | none =>
+        r.pend.any (fun p =>
+          let resp := (step r.s p.2).2
+          (match NMap.get exp p.1 with
+           | some o => decide (o = resp)
+           | none => true)
+          &&
+          match stepEv step r (.lin p.1 resp) with
+          | some r' => search exp fuel r' (e :: es)
+          | none => false)
 
 def expected : List (Ev Req Resp) → NMap Resp
   | [] => []
